@@ -212,6 +212,21 @@ def judgeH2 (payload impl : String) : Verdict :=
     | _, _ => .bad "bad-case"
   | _ => .bad "bad-case"
 
+/-- http.trailer (C03): chunked messages with trailer fields: reported exactly as the same conversation with those
+    fields in the header block, and every trailer field is among the reported header fields -/
+def judgeTrailer (payload impl : String) : Verdict :=
+  match Sx.parse payload, Sx.parse impl with
+  | some (.list [_, _, _, _, .list (.atom "want" :: want), _]), some (.list [.list [.atom "t", t], .list [.atom "h", h]]) =>
+    let same := t.toStr == h.toStr
+    let present := want.all fun w => (t.toStr.splitOn w.toStr).length > 1
+    let crashed := (impl.splitOn "panic").length > 1
+    let ok := same && present && !crashed
+    { corr := ok, implSpec := ok, modelSpec := true, tags := [], nontrivial := !want.isEmpty,
+      cls := s!"trailers={want.length}", model := h.toStr,
+      spec := "reported as the conversation with these fields in the header block: " ++ h.toStr }
+  | _, _ => { corr := false, implSpec := false, modelSpec := true, tags := [], nontrivial := true,
+              cls := "no-observation", model := "-", spec := "trailer fields are reported with the header fields of their message" }
+
 /-- http2.order: the conversation of http2.conv dissected client half first and server half first:
     the same items (as a set, protocol classification included) and the same left-overs -/
 def judgeH2Order (_payload impl : String) : Verdict :=
